@@ -127,13 +127,126 @@ def lifeRun : LifeTabs → Nat → List Nat → List String
     let T := lifeReload T old m
     ",".intercalate (lifeProbes.map (lifeOwner T)) :: lifeRun T m ms
 
+/-! ### a running frpc is re-configured (`reload`), simultaneous users of one proxy-protocol proxy (`ppc`):
+    harness/eng_tcpe2e_reload.go; models Frp/Model/Reload.lean (Manager.UpdateAll, GetWorkConnFromPool) -/
+
+def rlNames : List Nat := [0, 1, 2, 3]
+
+/-- `<p>.<b>.<r>.<v>.<e>.<u>`: r (endpoint) and e (encryption + compression) are what frps sees -/
+def rlEntry (s : String) : Option Reload.Cfg :=
+  match (s.splitOn ".").mapM String.toNat? with
+  | some [p, b, r, v, e, u] =>
+    if p < 4 && b < 5 && r < 2 && v < 3 && e < 2 && u < 2 then
+      some { name := p, backend := b, via := u, ppv := v, remote := 2 * r + e }
+    else none
+  | _ => none
+
+def rlStep (s : String) : Option (List Reload.Cfg) :=
+  if s = "-" then some [] else (s.splitOn "+").mapM rlEntry
+
+def rlVia (u : Nat) : String := if u == 0 then "t" else "u"
+
+/-- `<backend><t|u>` -/
+def rlWho (s : String) : Option (Nat × Nat) :=
+  let cs := s.toList
+  match cs.getLast?, (String.ofList cs.dropLast).toNat? with
+  | some 't', some b => some (b, 0)
+  | some 'u', some b => some (b, 1)
+  | _, _ => none
+
+/-- one answer of the reload op: `<backend><t|u>.<header version>.<1|0|n>` -/
+def rlObs (s : String) : Option (Nat × Nat × Nat × Bool) :=
+  match s.splitOn "." with
+  | [who, v, named] =>
+    match rlWho who, v.toNat? with
+    | some (b, u), some v => some (b, u, v, (named == "1" && v != 0) || (named == "n" && v == 0))
+    | _, _ => none
+  | _ => none
+
+def rlShow (T : Reload.Table) (n : Nat) : String :=
+  match Reload.dialled T n with
+  | some (b, u, v) => s!"{b}{rlVia u}.{v}.{if v == 0 then "n" else "1"}"
+  | none => "-"
+
+def rlRun : Reload.Table → List (List Reload.Cfg) → Reload.Table × List String
+  | T, [] => (T, [])
+  | T, cs :: rest =>
+    let T := Reload.updateAll T cs
+    let (T', out) := rlRun T rest
+    (T', ",".intercalate (rlNames.map (rlShow T)) :: out)
+
+/-- one answer of the ppc op: `<backend><t|u>.<header version>.<owner | x>.<dst ok>.<line ok>` -/
+def ppcObs (s : String) : Option (Nat × Nat × Nat × Option Nat × Bool × Bool) :=
+  match s.splitOn "." with
+  | [who, v, owner, d, l] =>
+    match rlWho who, v.toNat? with
+    | some (b, u), some v => some (b, u, v, owner.toNat?, d == "1", l == "1")
+    | _, _ => none
+  | _ => none
+
+/-- the model's answers for k simultaneous users: every fill before every send (the worst interleaving for a shared
+    message), header from each user's own StartWorkConn, owner = whose source the header carries -/
+def ppcModel (b u v k ips : Nat) : List String :=
+  let conns : List WorkMsg.Conn := (List.range k).map fun i =>
+    { src := some { host := Str.ofString s!"127.0.0.{2 + i % ips}", port := 1 + i }, dst := some { host := loopbackStr, port := 7 } }
+  let evs := (List.range k).map WorkMsg.Ev.fill ++ (List.range k).map WorkMsg.Ev.send
+  let st := WorkMsg.run false (Str.ofString "rl") conns evs
+  let ver := Str.ofString (if v == 1 then "v1" else if v == 2 then "v2" else "")
+  (List.range k).map fun i =>
+    match (st.sent.find? fun p => p.1 == i).bind fun p => ppHeader ver p.2 with
+    | some h =>
+      let owner := match conns.findIdx? fun c => c.src == some h.src with
+        | some j => toString j
+        | none => "x"
+      s!"{b}{rlVia u}.{h.version}.{owner}.{stkBit (h.dst.port == 7)}.1"
+    | none => s!"{b}{rlVia u}.0.x.0.1"
+
+abbrev E2eState := List (String × Reload.Table)
+
+def e2eTable (st : E2eState) (cfg : String) : Reload.Table := ((st.find? fun p => p.1 == cfg).map (·.2)).getD []
+def e2eSetTable (st : E2eState) (cfg : String) (T : Reload.Table) : E2eState := (cfg, T) :: st.filter fun p => p.1 != cfg
+
 def hexNat? (s : String) : Option Nat :=
   if s.isEmpty then none else
   s.toList.foldlM (fun acc c => (hexVal c).map (acc * 16 + ·)) 0
 
-def e2eStep (st : Unit) (tok : List String) (impl : String) : Unit × Verdict :=
+def e2eStep (st : E2eState) (tok : List String) (impl : String) : E2eState × Verdict :=
   match tok with
   | ["reset"] => (st, verdictOf "-" impl)
+  | "reload" :: rest =>
+    match stkKV rest "cfg", (stkKV rest "steps").bind fun s => (s.splitOn "/").mapM rlStep with
+    | some cfg, some steps =>
+      -- Manager.UpdateAll along the history, from the table the earlier ops of this pair left (C01.reload_bridges_last)
+      let (T, out) := rlRun (e2eTable st cfg) steps
+      let prop := match stkRes impl "s" with
+        | some r =>
+          let rs := r.splitOn "/"
+          rs.length == steps.length &&
+            (steps.zip rs).all fun (cs, owners) =>
+              let os := (owners.splitOn ",").map rlObs
+              os.length == rlNames.length && C01.reloadHoldsOn cs rlNames fun n => (os[n]?).join
+        | none => false
+      (e2eSetTable st cfg T, verdictOf ("s=" ++ "/".intercalate out) impl (some prop))
+    | _, _ => (st, .bad "reload")
+  | "ppc" :: rest =>
+    match stkKV rest "cfg", (stkKV rest "px").bind rlEntry, stkNat rest "k", stkNat rest "rounds", stkNat rest "ips" with
+    | some cfg, some c, some k, some rounds, some ips =>
+      if ips == 0 then (st, .bad "ppc ips") else
+      let T := Reload.updateAll (Reload.updateAll (e2eTable st cfg) []) [c]
+      match Reload.dialled T c.name with
+      | some (b, u, v) =>
+        -- every user's header names that very user (C01.startmsg_header_own)
+        let round := ",".intercalate (ppcModel b u v k ips)
+        let prop := match stkRes impl "r" with
+          | some r =>
+            let rs := r.splitOn "/"
+            rs.length == rounds && rs.all fun rd =>
+              let os := (rd.splitOn ",").map ppcObs
+              os.length == k && C01.ppcHoldsOn c.backend c.via c.ppv os
+          | none => false
+        (e2eSetTable st cfg T, verdictOf ("r=" ++ "/".intercalate (List.replicate rounds round)) impl (some prop))
+      | none => (st, .bad "ppc model")
+    | _, _, _, _, _ => (st, .bad "ppc")
   | "xfer" :: rest =>
     match e2eOpts rest, stkBool rest "pp" with
     | some o, some ppOn =>
@@ -213,7 +326,7 @@ def e2eStep (st : Unit) (tok : List String) (impl : String) : Unit × Verdict :=
     | none => (st, .bad "sched")
   | _ => (st, .bad "unknown op")
 
-def e2e : Engine := { State := Unit, init := (), step := e2eStep }
+def e2e : Engine := { State := E2eState, init := [], step := e2eStep }
 
 end Engines
 end Frp
